@@ -2,17 +2,188 @@ import Proofs.Lemmas.Searcher
 /-!
 # C20 — `RegexSearcher` (`core::str::pattern::Searcher` / `ReverseSearcher` for `&Regex`)
 
-Model: `RegressModel/Api/Searcher.lean`. Contract vocabulary (`tilesFrom`, `tilesBackFrom`,
-`onBoundaries`, `matchesOf`, `IsIter`, `ForwardOK`): `Proofs/Lemmas/SearcherSpec.lean`.
+Model: `RegressModel/Api/Searcher.lean` (the code as repaired by "fix: make the Pattern searcher's
+steps tile the haystack"). Contract vocabulary (`tilesFrom`, `onBoundaries`, `matchesOf`, `firstMatch`,
+`IsIter`, `CtxOK`): `Proofs/Lemmas/SearcherSpec.lean`. Lemmas: `Proofs/Lemmas/Searcher.lean`.
+The defects of the previous code (witnesses on its model): `Proofs/Lemmas/Regressions.lean`.
 
-Result: the contract ("adjacent, non-overlapping, covering the whole haystack") is **violated** as
-soon as a match is empty — both by `next` and by `next_back`, and `next_back` even loses a
-non-empty match. It **holds** for `next` when no match is empty (`forward_tiles_partial`).
+Result: under `CtxOK` (what C06/C09 give for the real engine) the searcher satisfies the contract of
+`Searcher` and `ReverseSearcher`:
+* `forward_tiles`       — the steps of `next()` tile `[0, len)` on char boundaries, the `Match` steps are
+                          exactly the matches of `find_iter`, no panic, at most `2·len + 1` steps;
+* `backward_is_reverse` — the steps of `next_back()` are the same steps in reverse order;
+* `interleaved_tiles`   — for ANY interleaving of `next` / `next_back`, the steps handed out from the
+                          front, then those not yet handed out, then those handed out from the back
+                          (reversed) are that same list, nothing is left once either direction has
+                          returned `Done` (`interleaved_contract`; `interleaved_finishes`: that
+                          happens within `2·len + 2` calls), and after that every call returns `Done`
+                          (`done_forever`);
+* `first_match_step`, `last_match_step` — what `str::find` / `str::rfind` see.
 -/
 namespace Regress.C20
 open Regress.Api
 
-/-! ## (a) Counterexamples: pattern `\d*`, haystack `"ab12cd"` (6 ASCII bytes) -/
+/-! ## 1. Forwards -/
+
+/-- **forward_tiles.** Under `CtxOK`, repeated `next()` on a fresh searcher
+(a) never panics (neither the `find_from` assertion nor the slice nor the index) and
+(b) returns `Done` after at most `2·len + 1` other steps (so the model's fuel `2·len + 2` suffices, and
+    any larger fuel gives the same list); those steps
+(c) tile `[0, len)`: the first starts at 0, each starts where the previous one ended, the last ends at
+    `len`, `Match(s, e)` has `s ≤ e`, `Reject(s, e)` has `s < e`, none is `Done`;
+(d) have all their endpoints on char boundaries;
+(e) contain as `Match` steps exactly the matches of `find_iter` (empty ones included), in order:
+    `matchesOf steps` is the `lastIndex` unfold from 0, and the only one. -/
+theorem forward_tiles (ctx : SearchCtx) (H : CtxOK ctx) :
+    ∃ steps, forwardSteps ctx = some steps ∧
+      (∀ fuel, steps.length + 1 ≤ fuel → forwardStepsFuel ctx fuel RegexSearcher.new = some steps) ∧
+      steps.length ≤ 2 * ctx.len + 1 ∧
+      tilesFrom ctx.len 0 steps = true ∧
+      onBoundaries ctx steps = true ∧
+      IsIter ctx 0 (matchesOf steps) ∧
+      (∀ ms, IsIter ctx 0 ms → matchesOf steps = ms) := by
+  obtain ⟨steps, s', hrun, hlen, htile, hbd, hit⟩ :=
+    run_exists H _ 0 (some 0) (Nat.le_refl _) (FwdInv_new H)
+  have hlen' : steps.length + 1 ≤ 2 * ctx.len + 2 := by
+    have := fwdMeasure_new (ctx := ctx); unfold RegexSearcher.new at this; omega
+  have hfuel := forwardStepsFuel_of_run hrun rfl
+  exact ⟨steps, hfuel _ hlen', hfuel, by omega, htile, hbd, hit,
+    fun ms hms => IsIterO_unique _ _ _ hit hms⟩
+
+/-! ## 2. Backwards -/
+
+/-- **backward_is_reverse.** The steps of repeated `next_back()` on a fresh searcher (until `Done`) are
+exactly the forward steps in reverse order (no panic, the loop of `next_back` terminates within the
+model's fuel). -/
+theorem backward_is_reverse (ctx : SearchCtx) (H : CtxOK ctx) :
+    ∃ steps, forwardSteps ctx = some steps ∧ backwardSteps ctx = some steps.reverse := by
+  obtain ⟨steps, s', hrun, hlen, htile, _, _⟩ :=
+    run_exists H _ 0 (some 0) (Nat.le_refl _) (FwdInv_new H)
+  have hlen' : steps.length + 1 ≤ 2 * ctx.len + 2 := by
+    have := fwdMeasure_new (ctx := ctx); unfold RegexSearcher.new at this; omega
+  refine ⟨steps, forwardStepsFuel_of_run hrun rfl _ hlen', ?_⟩
+  have hnb := nextBack_of_run (s := RegexSearcher.new) rfl hrun hlen'
+  have h2 := backwardStepsFuel_some (ctx := ctx) steps.length steps
+    { s' with remaining := some (steps, 0) } (2 * ctx.len + 2) rfl rfl hrun.no_done hlen'
+  rw [← h2]
+  show backwardStepsFuel ctx (2 * ctx.len + 1 + 1) _ = backwardStepsFuel ctx (2 * ctx.len + 1 + 1) _
+  simp only [backwardStepsFuel, hnb]
+
+/-! ## 3. Any interleaving -/
+
+/-- **interleaved_tiles.** Take ANY sequence `ops` of `next` (`true`) / `next_back` (`false`) calls on a
+fresh searcher (the run stops when both directions have returned `Done`). Then no call panics, and with
+`all` the forward step list of `forward_tiles`:
+* the steps returned by `next` (in call order), then some list `mid` (the steps not handed out yet),
+  then the reverse of the steps returned by `next_back` (in call order) are exactly `all` — so what has
+  been handed out tiles a prefix and a suffix of the haystack in order, on boundaries, without overlap;
+* as soon as either direction has returned `Done`, `mid` is empty: everything has been handed out,
+  exactly once (in particular when the run is `finished`: `fronts ++ backs.reverse = all`);
+* steps returned after a `Done` of the same direction would be counted in `fronts` / `backs`: there are
+  none. -/
+theorem interleaved_tiles (ctx : SearchCtx) (H : CtxOK ctx) (ops : List Bool) :
+    ∃ all r mid, forwardSteps ctx = some all ∧ runOps ctx ops = .ok r ∧
+      r.fronts ++ mid ++ r.backs.reverse = all ∧
+      (r.frontDone = true ∨ r.backDone = true → mid = []) ∧
+      (r.finished = true → r.fronts ++ r.backs.reverse = all) := by
+  obtain ⟨all, s', hrun, hlen, _⟩ := run_exists H _ 0 (some 0) (Nat.le_refl _) (FwdInv_new H)
+  have hlen' : all.length + 1 ≤ 2 * ctx.len + 2 := by
+    have := fwdMeasure_new (ctx := ctx); unfold RegexSearcher.new at this; omega
+  obtain ⟨r, mid, hr, hi, _⟩ :=
+    run_inter hlen' ops RunResult.init all 0 (Inter.init hrun) (.inr (.inr (Nat.zero_le _)))
+  obtain ⟨h1, h2⟩ := hi.sound
+  refine ⟨all, r, mid, forwardStepsFuel_of_run hrun rfl _ hlen', hr, h1, h2, ?_⟩
+  intro hfin
+  have hfd : r.frontDone = true := by
+    simp only [RunResult.finished, Bool.and_eq_true] at hfin; exact hfin.1
+  have := h2 (.inl hfd)
+  subst this
+  simpa using h1
+
+/-- **interleaved_contract** (`interleaved_tiles` + `forward_tiles`). In any interleaving, once either
+direction has returned `Done`, the steps returned by `next` followed by the reverse of the steps returned
+by `next_back` tile `[0, len)` on char boundaries, and their `Match` steps are exactly the matches of
+`find_iter`: every piece of the haystack has been handed out exactly once, from one side or the other. -/
+theorem interleaved_contract (ctx : SearchCtx) (H : CtxOK ctx) (ops : List Bool) (r : RunResult)
+    (hr : runOps ctx ops = .ok r) (hdone : r.frontDone = true ∨ r.backDone = true) :
+    tilesFrom ctx.len 0 (r.fronts ++ r.backs.reverse) = true ∧
+      onBoundaries ctx (r.fronts ++ r.backs.reverse) = true ∧
+      (∀ ms, IsIter ctx 0 ms → matchesOf (r.fronts ++ r.backs.reverse) = ms) := by
+  obtain ⟨all, r', mid, h1, h2, h3, h4, _⟩ := interleaved_tiles ctx H ops
+  rw [hr] at h2; cases h2
+  have := h4 hdone
+  subst this
+  obtain ⟨all', h1', _, _, ht, hb, _, hu⟩ := forward_tiles ctx H
+  rw [h1] at h1'; cases h1'
+  simp only [List.append_nil] at h3
+  rw [h3]
+  exact ⟨ht, hb, hu⟩
+
+/-- **interleaved_finishes** (the schedule as fuel). Whatever the first `2·len + 1` calls are, as soon
+as `next` and `next_back` have each been called once more, both have returned `Done`. -/
+theorem interleaved_finishes (ctx : SearchCtx) (H : CtxOK ctx) (pre post : List Bool)
+    (hpre : 2 * ctx.len + 1 ≤ pre.length) (hf : true ∈ post) (hb : false ∈ post) :
+    ∃ r, runOps ctx (pre ++ post) = .ok r ∧ r.finished = true := by
+  obtain ⟨all, s', hrun, hlen, _⟩ := run_exists H _ 0 (some 0) (Nat.le_refl _) (FwdInv_new H)
+  have hlen' : all.length + 1 ≤ 2 * ctx.len + 2 := by
+    have := fwdMeasure_new (ctx := ctx); unfold RegexSearcher.new at this; omega
+  obtain ⟨r1, mid1, hr1, hi1, hp1, _⟩ :=
+    run_inter hlen' pre RunResult.init all 0 (Inter.init hrun) (.inr (.inr (Nat.zero_le _)))
+  have hmid : mid1 = [] := by
+    apply hi1.mid_nil_of_progress
+    rcases hp1 with h | h | h
+    · exact .inl h
+    · exact .inr (.inl h)
+    · exact .inr (.inr (by omega))
+  obtain ⟨r, mid, hr, _, _, _, _, hnil⟩ := run_inter hlen' post r1 mid1 0 hi1 (.inr (.inr (Nat.zero_le _)))
+  obtain ⟨_, h1, h2⟩ := hnil hmid
+  refine ⟨r, ?_, by simp [RunResult.finished, h1 hf, h2 hb]⟩
+  simp [runOps, runOpsFrom_append, hr1, hr]
+
+/-- **done_forever.** Once either direction has returned `Done` in a run, every further call, in either
+direction, returns `Done` (and does not panic). -/
+theorem done_forever (ctx : SearchCtx) (H : CtxOK ctx) (ops : List Bool) (r : RunResult)
+    (hr : runOps ctx ops = .ok r) (hdone : r.frontDone = true ∨ r.backDone = true)
+    (more : List Bool) :
+    callSteps ctx more r.state = .ok (List.replicate more.length .done) := by
+  obtain ⟨all, s', hrun, hlen, _⟩ := run_exists H _ 0 (some 0) (Nat.le_refl _) (FwdInv_new H)
+  have hlen' : all.length + 1 ≤ 2 * ctx.len + 2 := by
+    have := fwdMeasure_new (ctx := ctx); unfold RegexSearcher.new at this; omega
+  obtain ⟨r', mid, hr', hi, _⟩ :=
+    run_inter hlen' ops RunResult.init all 0 (Inter.init hrun) (.inr (.inr (Nat.zero_le _)))
+  have : r' = r := by
+    have h := hr'; unfold runOps at hr; rw [hr] at h; cases h; rfl
+  subst this
+  have hmid := hi.sound.2 hdone
+  subst hmid
+  exact hi.exhausted.callSteps more
+
+/-! ## 4. What `str::find` / `str::rfind` see -/
+
+/-- **first_match_step.** The first `Match` step from the front is `find_from(h, 0).next()`, i.e.
+`regex.find(h)` (`none` = there is no `Match` step). -/
+theorem first_match_step (ctx : SearchCtx) (H : CtxOK ctx) :
+    ∃ steps, forwardSteps ctx = some steps ∧ firstMatch steps = ctx.findFrom 0 := by
+  obtain ⟨steps, h1, _, _, _, _, hit, _⟩ := forward_tiles ctx H
+  refine ⟨steps, h1, ?_⟩
+  rw [firstMatch_eq_head]
+  unfold IsIter at hit
+  cases hm : matchesOf steps with
+  | nil => rw [hm] at hit; simp only [IsIterO] at hit; simp [hit]
+  | cons m ms => rw [hm] at hit; simp only [IsIterO] at hit; simp [hit.1]
+
+/-- **last_match_step.** The first `Match` step from the back is the last match of `find_iter`
+(`none` = there is none). -/
+theorem last_match_step (ctx : SearchCtx) (H : CtxOK ctx) (ms : List (Nat × Nat))
+    (hms : IsIter ctx 0 ms) :
+    ∃ steps, backwardSteps ctx = some steps ∧ firstMatch steps = ms.getLast? := by
+  obtain ⟨all, h1, h2⟩ := backward_is_reverse ctx H
+  obtain ⟨all', h1', _, _, _, _, _, huniq⟩ := forward_tiles ctx H
+  rw [h1] at h1'; cases h1'
+  refine ⟨all.reverse, h2, ?_⟩
+  rw [firstMatch_eq_head, matchesOf_reverse, huniq ms hms, List.head?_reverse]
+
+/-! ## Non-vacuity: pattern `\d*`, haystack `"ab12cd"` (6 ASCII bytes; empty and non-empty matches) -/
 
 /-- `Regex::new(r"\d*").find_from("ab12cd", p).next()` for every `p`. -/
 def digitsFindFrom (p : Nat) : Option (Nat × Nat) :=
@@ -22,143 +193,86 @@ def digitsFindFrom (p : Nat) : Option (Nat × Nat) :=
 def digitsMatches : List (Nat × Nat) := [(0, 0), (1, 1), (2, 4), (4, 4), (5, 5), (6, 6)]
 
 def digitsCtx : SearchCtx :=
-  { len := 6, findFrom := digitsFindFrom, allMatches := digitsMatches, isBoundary := fun _ => true }
+  { len := 6, findFrom := digitsFindFrom, isBoundary := fun p => decide (p ≤ 6),
+    nextBoundary := fun e => if e < 6 then some (e + 1) else none }
 
-/-- The steps a contract-abiding searcher would have to return here. -/
+/-- The steps the real searcher returns here (checked against the Rust code). -/
 def digitsExpected : List SearchStep :=
   [.match 0 0, .reject 0 1, .match 1 1, .reject 1 2, .match 2 4, .match 4 4, .reject 4 5,
    .match 5 5, .reject 5 6, .match 6 6]
 
+theorem digitsCtx_ok : CtxOK digitsCtx := ctxOK_of_check (by decide)
+
+/-- The model computes the expected steps … -/
+theorem digits_steps : forwardSteps digitsCtx = some digitsExpected := by decide
+/-- … which are the reverse from the back … -/
+theorem digits_steps_back : backwardSteps digitsCtx = some digitsExpected.reverse := by decide
+/-- … and `digitsMatches` is the iterator's output. -/
+theorem digits_iter : IsIter digitsCtx 0 digitsMatches := by decide
+
 example : tilesFrom 6 0 digitsExpected = true := by decide
 example : matchesOf digitsExpected = digitsMatches := by decide
+example : firstMatch digitsExpected = some (0, 0) ∧ firstMatch digitsExpected.reverse = some (6, 6) := by
+  decide
 
-/-- **forward_gap_witness.** `next()` returns `Match(0,0)` and then `Match(1,1)`: the byte range
-`[0,1)` is never reported (no `Reject(0,1)`), and likewise `[1,2)`, `[4,5)`, `[5,6)`. The steps do
-not tile the haystack, so `str::split`, `str::matches` etc. built on this searcher lose text. -/
-theorem forward_gap_witness :
-    forwardSteps digitsCtx =
-      some [.match 0 0, .match 1 1, .match 2 4, .match 4 4, .match 5 5, .match 6 6] ∧
-    (∀ steps, forwardSteps digitsCtx = some steps → tilesFrom digitsCtx.len 0 steps = false) := by
-  refine ⟨by decide, ?_⟩
-  intro steps hs
-  have h : forwardSteps digitsCtx =
-      some [.match 0 0, .match 1 1, .match 2 4, .match 4 4, .match 5 5, .match 6 6] := by decide
-  rw [h] at hs; cases hs; decide
+/-- `forward_tiles` instantiated. -/
+example : ∃ steps, forwardSteps digitsCtx = some steps ∧ tilesFrom 6 0 steps = true ∧
+    matchesOf steps = digitsMatches := by
+  obtain ⟨steps, h1, _, _, h2, _, _, h3⟩ := forward_tiles digitsCtx digitsCtx_ok
+  exact ⟨steps, h1, h2, h3 _ digits_iter⟩
 
-/-- The very first two calls already break adjacency. -/
-theorem forward_gap_first_two :
-    (RegexSearcher.new digitsCtx).next digitsCtx =
-      .ok (.match 0 0, { currentPos := 1, done := false, reversePos := 6, reverseDone := false }) ∧
-    RegexSearcher.next digitsCtx
-        { currentPos := 1, done := false, reversePos := 6, reverseDone := false } =
-      .ok (.match 1 1, { currentPos := 2, done := false, reversePos := 6, reverseDone := false }) := by
-  constructor <;> rfl
+/-- The other theorems instantiated. -/
+example : ∃ steps, forwardSteps digitsCtx = some steps ∧ backwardSteps digitsCtx = some steps.reverse :=
+  backward_is_reverse digitsCtx digitsCtx_ok
+example : ∃ steps, backwardSteps digitsCtx = some steps ∧ firstMatch steps = some (6, 6) :=
+  last_match_step digitsCtx digitsCtx_ok digitsMatches digits_iter
+example : ∃ r, runOps digitsCtx (List.replicate 13 true ++ [false, true]) = .ok r ∧ r.finished = true :=
+  interleaved_finishes digitsCtx digitsCtx_ok _ _ (by decide) (by decide) (by decide)
 
-/-- **backward_witness.** `next_back()` on the same input returns
-`Match(6,6), Match(5,5), Match(4,4), Reject(1,3), Match(1,1), Match(0,0)`:
-* the ranges `[5,6)`, `[4,5)`, `[3,4)`, `[0,1)` are never reported (no tiling), and
-* the only non-empty match `Match(2,4)` ("12") is **lost** — half of it is even inside
-  `Reject(1,3)` — although `next()` reports it. -/
-theorem backward_witness :
-    backwardSteps digitsCtx =
-      some [.match 6 6, .match 5 5, .match 4 4, .reject 1 3, .match 1 1, .match 0 0] ∧
-    (∀ steps, backwardSteps digitsCtx = some steps →
-      tilesBackFrom digitsCtx.len steps = false ∧ (2, 4) ∉ matchesOf steps) ∧
-    (∀ steps, forwardSteps digitsCtx = some steps → (2, 4) ∈ matchesOf steps) := by
-  have hb : backwardSteps digitsCtx =
-      some [.match 6 6, .match 5 5, .match 4 4, .reject 1 3, .match 1 1, .match 0 0] := by decide
-  have hf : forwardSteps digitsCtx =
-      some [.match 0 0, .match 1 1, .match 2 4, .match 4 4, .match 5 5, .match 6 6] := by decide
-  refine ⟨hb, ?_, ?_⟩
-  · intro steps hs; rw [hb] at hs; cases hs; decide
-  · intro steps hs; rw [hf] at hs; cases hs; decide
+/-- An interleaving: `next, next_back, next_back, next, next, next_back, …` (period 6), 12 calls. -/
+def digitsOps : List Bool :=
+  [true, false, false, true, true, false, true, false, false, true, true, false]
 
-/-- A smaller witness: the empty pattern on `"a"` (matches `(0,0)` and `(1,1)`). Forwards the
-searcher returns `Match(0,0), Match(1,1)` and never accounts for the byte `a`; the `&str` pattern
-`""` returns `Match(0,0), Reject(0,1), Match(1,1)`. -/
-def emptyCtx : SearchCtx :=
-  { len := 1, findFrom := fun p => if p ≤ 1 then some (p, p) else none,
-    allMatches := [(0, 0), (1, 1)], isBoundary := fun _ => true }
+example : (runOps digitsCtx digitsOps).toOption.map
+      (fun r => (r.fronts, r.backs, r.frontDone, r.backDone)) =
+    some ([.match 0 0, .reject 0 1, .match 1 1, .reject 1 2, .match 2 4],
+          [.match 6 6, .reject 5 6, .match 5 5, .reject 4 5, .match 4 4], true, true) := by decide
 
-theorem forward_gap_witness_empty_pattern :
-    forwardSteps emptyCtx = some [.match 0 0, .match 1 1] ∧
-    tilesFrom 1 0 [.match 0 0, .match 1 1] = false ∧
-    tilesFrom 1 0 [.match 0 0, .reject 0 1, .match 1 1] = true ∧
-    backwardSteps emptyCtx = some [.match 1 1, .match 0 0] ∧
-    tilesBackFrom 1 [.match 1 1, .match 0 0] = false := by decide
+/-! ### A multi-byte haystack: pattern `x*` on `"aé€😀b"` (11 bytes, boundaries 0 1 3 6 10 11) -/
 
-/-! ## (b) Without empty matches the forward searcher satisfies the contract -/
+def multiCtx : SearchCtx :=
+  SearchCtx.ofMatches 11 [0, 1, 3, 6, 10, 11] [(0, 0), (1, 1), (3, 3), (6, 6), (10, 10), (11, 11)]
 
-/-- **forward_tiles_partial.** If every match found by `find_from` is non-empty (`ForwardOK`), then
-repeated `next()` never panics, terminates within the model's fuel, and the steps before `Done`
-* tile `[0, len)` exactly (adjacent, non-overlapping, covering),
-* lie on char boundaries, and
-* their `Match` steps are exactly the matches of `find_iter` (`allMatches`), in order. -/
-theorem forward_tiles_partial (ctx : SearchCtx) (H : ForwardOK ctx) :
-    ∃ steps, forwardSteps ctx = some steps ∧
-      tilesFrom ctx.len 0 steps = true ∧
-      onBoundaries ctx steps = true ∧
-      matchesOf steps = ctx.allMatches := by
-  unfold forwardSteps RegexSearcher.new
-  exact forward_from H _ 0 ctx.allMatches ctx.len false (by omega) (by omega) H.boundary_zero H.all_iter
+theorem multiCtx_ok : CtxOK multiCtx := ctxOK_of_check (by decide)
 
-/-! ### Non-vacuity: pattern `\d+` on `"ab12cd3"` (matches `[2,4)` and `[6,7)`) -/
+/-- As returned by the Rust code. -/
+example : forwardSteps multiCtx =
+    some [.match 0 0, .reject 0 1, .match 1 1, .reject 1 3, .match 3 3, .reject 3 6, .match 6 6,
+          .reject 6 10, .match 10 10, .reject 10 11, .match 11 11] := by decide
 
-def plusCtx : SearchCtx :=
-  { len := 7
-    findFrom := fun p => if p ≤ 2 then some (2, 4) else if p = 3 then some (3, 4)
-                         else if p ≤ 6 then some (6, 7) else none
-    allMatches := [(2, 4), (6, 7)]
-    isBoundary := fun _ => true }
+/-! ### No match at all (`z` on `"abc"`), and the empty haystack with the empty pattern -/
 
-theorem plusCtx_ok : ForwardOK plusCtx where
-  find_range := by
-    intro p s e _ h
-    simp only [plusCtx] at h ⊢
-    split at h
-    · cases h; omega
-    · split at h
-      · cases h; omega
-      · split at h
-        · cases h; omega
-        · cases h
-  find_restart := by
-    intro p s e _ h
-    simp only [plusCtx] at h ⊢
-    split at h
-    · cases h; simp
-    · split at h
-      · cases h; simp
-      · split at h
-        · cases h; simp
-        · cases h
-  find_boundary := by intro p s e _ _; simp [plusCtx]
-  boundary_zero := rfl
-  boundary_len := rfl
-  all_iter := by
-    refine ⟨by decide, by decide, ?_⟩
-    show plusCtx.findFrom 7 = none
-    decide
+example : forwardSteps (SearchCtx.ofMatches 3 [0, 1, 2, 3] []) = some [.reject 0 3] := by decide
+example : backwardSteps (SearchCtx.ofMatches 3 [0, 1, 2, 3] []) = some [.reject 0 3] := by decide
+example : forwardSteps (SearchCtx.ofMatches 0 [0] [(0, 0)]) = some [.match 0 0] := by decide
 
-example : forwardSteps plusCtx =
+/-! ### Non-empty matches only: `\d+` on `"ab12cd3"`; a lookbehind: `(?<=a)b` on `"abab"` -/
+
+example : forwardSteps (SearchCtx.ofMatches 7 [0, 1, 2, 3, 4, 5, 6, 7] [(2, 4), (6, 7)]) =
     some [.reject 0 2, .match 2 4, .reject 4 6, .match 6 7] := by decide
-example : ∃ steps, forwardSteps plusCtx = some steps ∧ tilesFrom 7 0 steps = true ∧
-    onBoundaries plusCtx steps = true ∧ matchesOf steps = [(2, 4), (6, 7)] :=
-  forward_tiles_partial plusCtx plusCtx_ok
-/-- Backwards, without empty matches, the model also tiles on this example. -/
-example : backwardSteps plusCtx =
-    some [.match 6 7, .reject 4 6, .match 2 4, .reject 0 2] := by decide
 
-/-- `digitsCtx` fails exactly the non-emptiness hypothesis. -/
-example : ¬ ForwardOK digitsCtx := by
-  intro H
-  have := H.find_range 0 0 0 (by decide) (by decide)
-  omega
+example : forwardSteps (SearchCtx.ofMatches 4 [0, 1, 2, 3, 4] [(1, 2), (3, 4)]) =
+    some [.reject 0 1, .match 1 2, .reject 2 3, .match 3 4] := by decide
 
-#print axioms forward_gap_witness
-#print axioms forward_gap_first_two
-#print axioms backward_witness
-#print axioms forward_gap_witness_empty_pattern
-#print axioms forward_tiles_partial
+#print axioms forward_tiles
+#print axioms backward_is_reverse
+#print axioms interleaved_tiles
+#print axioms interleaved_contract
+#print axioms interleaved_finishes
+#print axioms done_forever
+#print axioms first_match_step
+#print axioms last_match_step
+#print axioms digitsCtx_ok
+#print axioms digits_steps
 
 end Regress.C20
